@@ -67,10 +67,35 @@ fn run_mu_branches(e: &Sexp) -> Result<Sexp, String> {
     Ok(tagged("mu", vec![tagged("consistent", vec![conv::boolean(consistent)]), tagged("branches", branches)]))
 }
 
+/// The CLI path `translate --with natural`: Program::from_str on the program text, natural, Display
+/// of the theory; the printed theory is parsed back and returned as a tree.  Cases whose program
+/// text does not parse back to the same program (printer/parser matters, property C14) are
+/// answered from the tree directly, so that this op only ever differs from `natural` through the
+/// text path of natural's own output.
+fn run_natural_text(e: &Sexp) -> Result<Sexp, String> {
+    use std::str::FromStr;
+    let p = conv::parse_program(e)?;
+    let text = format!("{p}");
+    let p2 = match asp::Program::from_str(&text) {
+        Ok(p2) if p2 == p => p2,
+        _ => { if std::env::var("NAT_TEXT_STRICT").is_ok() { return Err("no-roundtrip".into()); } return run_natural(e) }
+    };
+    Ok(match p2.natural() {
+        Some(t) => {
+            let printed = format!("{t}");
+            let back = anthem::syntax_tree::fol::sigma_0::Theory::from_str(&printed)
+                .map_err(|err| format!("printed natural theory does not parse: {err}: {printed}"))?;
+            tagged("some", vec![conv::theory(&back)])
+        }
+        None => l(vec![a("none")]),
+    })
+}
+
 pub fn ops() -> Vec<Op> {
     vec![
         Op { name: "natural", generate: gen_program, run: run_natural },
         Op { name: "natural_small", generate: gen_small_program, run: run_natural },
+        Op { name: "natural_text", generate: gen_program, run: run_natural_text },
         Op { name: "is_regular", generate: gen_program, run: run_is_regular },
         Op { name: "mu_branches", generate: gen_program, run: run_mu_branches },
     ]
